@@ -1,5 +1,6 @@
 (* C17 - each strictness option changes exactly the check it names, nothing else. *)
 From HclV Require Import Base Expr ExprSpec ExprLemmas ExprProofs ExprRules ExprRulesProofs.
+From HclV Require TextLevelSpec TextLevelProofs.
 From HclV Require Import Machine MachineSpec SchedSpec Build BuildSpec Generated FeatureSpec FeatureProofs.
 Open Scope N_scope.
 
@@ -73,3 +74,14 @@ Print Assumptions C17_each_option_guards_its_rule.
 Theorem C17_unreachable_rule_subsumes_single_default_rule : stmt_duo_subsumes_dmd.
 Proof. exact duo_subsumes_dmd_holds. Qed.
 Print Assumptions C17_unreachable_rule_subsumes_single_default_rule.
+
+(* ---- END TO END, from the program TEXT (TextLevelSpec.v / TextLevelProofs.v): the user's file (valid
+   UTF-8) after the compiled preamble, lexed with any Unicode classification, parsed with the compiled
+   tier table, built with the compiled component table; states = those reachable by loading an
+   image and stepping.  No hypothesis a user cannot check by reading the file. ------------------- *)
+Theorem C17_text_level :
+  TextLevelSpec.stmt_text_options_only_reject_more /\ TextLevelSpec.stmt_text_simulates_identically_under_two_sets.
+Proof.
+  split; [exact TextLevelProofs.text_options_only_reject_more_holds | exact TextLevelProofs.text_simulates_identically_under_two_sets_holds].
+Qed.
+Print Assumptions C17_text_level.
